@@ -559,7 +559,7 @@ for _p in ARENA:
 COLLS = {
     'C06': dict(x=['accounted', 'lost', 'unknown element', 'stale slot', 'drops do not match', 'was dropped while moving', 'helpers:'],
                 note='PARTIAL: conservation proved for the modelled algorithms (now including into_iter, splice, map_in_place with a panicking closure, append); map / extend with lying size hints / resize_with / dedup_by_key / into_boxed_slice / partition are covered by the drop-count monitor and std Vec in lock-step only (extras probe); the allocation helpers and collections of zero-sized elements are covered by birth/drop-count probes (helpers probe, HP / HZ lines), the two zero-sized branches that were defective are modelled in both versions (pinned refuted, repaired proved)'),
-    'C08': dict(x=['std::vec::Vec', 'contents differ', 'returned values differ', 'capacity:', 'capacity ', 'cap history', 'helpers: contents', 'overwrote a neighbouring allocation', 'yielded', 'len() of the iterator', 'accounted', 'lost'],
+    'C08': dict(x=['std::vec::Vec', 'contents differ', 'returned values differ', 'capacity:', 'capacity ', 'cap history', 'helpers: contents', 'helpers: std::vec::Vec panics', 'overwrote a neighbouring allocation', 'yielded', 'len() of the iterator', 'accounted', 'lost'],
                 note='list-function refinement proved for the modelled operations; capacity clauses proved for BumpVec / FixedBumpVec / MutBumpVec / MutBumpVecRev over the capacity model VecCap.v (capacity >= length in every reachable state, reserve / reserve_exact / with_capacity keep their promise, no allocator call and no move while the promise suffices, amortised doubling, a fixed vector never reallocates and fails exactly when full) and replayed from capacity histories; PARTIAL: zero-sized element types and unmodelled operations are checked against std::vec::Vec in lock-step only'),
     'C16': dict(x=['split_off capacities', 'split_off part', 'changed the remaining part', 'changed the split-off part', 'parts:'],
                 ops=['split_off', 'split_at', 'split_first', 'split_last', 'split_off_first', 'split_off_last', 'partition', 'merge'],
@@ -639,7 +639,7 @@ def colls_verdict(ctx, pid, res, conf):
             continue
         if pid != 'C16' and ('parts probe' in xl or 'parts case' in xl):
             continue
-        if 'helpers case' in xl and not (pid == 'C06' or (pid == 'C08' and 'contents of' in xl)):
+        if 'helpers case' in xl and not (pid == 'C06' or (pid == 'C08' and ('contents' in xl or 'std::vec::Vec' in xl))):
             continue
         probe = ' probe ' in xl or ' reserve ::' in xl
         ctx.violations.append({'kind': 'colls-probe' if probe else 'colls-case', 'build': b, 'case': None if probe else case, 'what_fails': xl,
